@@ -239,6 +239,40 @@ def _clamp(e):
     return None
 
 
+def _clamp_semantics(ctx, f: Fn, digits):
+    """Evaluates the method's own statements (sa/minieval.py) for every ordering of the rounded request against the limits:
+    the value handed to _send_ac_control_message must be min(max(lo, round(t[, digits])), hi) whenever lo <= hi."""
+    from ..minieval import Mini, Unsupported
+
+    def stop(st):
+        for x in ast.walk(st):
+            if isinstance(x, ast.Call) and dotted(x.func) == "self._send_ac_control_message":
+                v = next((k.value for k in x.keywords if k.arg in ("set_point", "set_point_control")), None)
+                if isinstance(v, ast.Call) and (dotted(v.func) or "").endswith("AcSetPointValue"):
+                    v = v.args[0] if v.args else next((k.value for k in v.keywords if k.arg == "set_point"), None)
+                return v
+        return None
+
+    step = 0.1 if digits else 1.0
+    tried = 0
+    for lo, hi in ((16, 16), (16, 30), (18, 19), (30, 30), (17.5, 29.5) if digits else (17, 29)):
+        for base in (lo - 3, lo - 1, lo, lo + 1, (lo + hi) / 2, hi - 1, hi, hi + 1, hi + 3):
+            for frac in (0.0, 0.04, 0.14, 0.26, 0.34, 0.49, -0.14, -0.34):
+                t = base + frac
+                want = min(max(lo, round(t, digits) if digits else round(t)), hi)
+                mini = Mini(ctx.repo, f.module, {"self.min_target_temperature": lo, "self.max_target_temperature": hi}, f.cls)
+                try:
+                    kind, got = mini.value_at(f.node, {"temperature": t}, stop)
+                except Unsupported as ex:
+                    raise AnalysisError(f"{f.module.relpath}: {f.qual}: set-point computation left the evaluable fragment: {ex}")
+                tried += 1
+                if kind != "value":
+                    return False, f"temperature={t}, limits [{lo}, {hi}]: no set-point reaches _send_ac_control_message ({kind})"
+                if not (isinstance(got, (int, float)) and abs(got - want) < 1e-9):
+                    return False, f"temperature={t}, limits [{lo}, {hi}]: the message gets {got!r}, expected {want!r}"
+    return True, f"{tried} orderings/grid points evaluated"
+
+
 def r4(ctx):
     R = "C11.R4"
     # zones
@@ -257,46 +291,7 @@ def r4(ctx):
     for modname, cls, digits in ((AT4_API, "At4AirConditioner", None), (AT5_API, "At5AirConditioner", 1)):
         f = fn_of(ctx, modname, f"{cls}.set_target_temperature")
         m = f.module
-        calls = f.calls("self._send_ac_control_message")
-        ok = False
-        found = "no _send_ac_control_message call"
-        for n, c in calls:
-            v = next((k.value for k in c.keywords if k.arg in ("set_point", "set_point_control")), None)
-            if isinstance(v, ast.Call) and (dotted(v.func) or "").endswith("AcSetPointValue"):
-                v = v.args[0] if v.args else next((k.value for k in v.keywords if k.arg == "set_point"), None)
-            e = f.expand(v, n) if v is not None else None
-            found = norm_text(e) if e is not None else "no set-point argument"
-            cl = _clamp(e) if e is not None else None
-            if cl is None:
-                found = "not a clamp: " + found
-                continue
-            outer, bound, inner = cl
-            # identify lo/x/hi
-            def is_min(x):
-                t = norm_text(x)
-                return t in ("self.min_target_temperature", "round(self.min_target_temperature)")
-
-            def is_max(x):
-                t = norm_text(x)
-                return t in ("self.max_target_temperature", "round(self.max_target_temperature)")
-
-            xs = [x for x in inner if not is_min(x) and not is_max(x)]
-            inner_bound = [x for x in inner if is_min(x) or is_max(x)]
-            if len(xs) != 1 or len(inner_bound) != 1:
-                found = "clamp operands not recognised: " + found
-                continue
-            x = xs[0]
-            if outer == "min":  # min(max(LO, x), HI)
-                pos_ok = is_min(inner_bound[0]) and is_max(bound)
-            else:  # max(min(x, HI), LO)
-                pos_ok = is_max(inner_bound[0]) and is_min(bound)
-            if not pos_ok:
-                found = "bounds swapped or missing: " + found
-                continue
-            if not _round_of(x, "temperature", digits):
-                found = f"the clamped value is `{norm_text(x)}`, not the rounded temperature: " + found
-                continue
-            ok = True
+        ok, found = _clamp_semantics(ctx, f, digits)
         ctx.check(ok, R, f"{cls}.set_target_temperature:round-then-clamp", m, f.node, f"min(max(min_target_temperature, round(temperature{', 1' if digits else ''})), max_target_temperature)", found)
         # the message field receives that value unchanged
     for modname, cls, fld in ((AT4_API, "At4AirConditioner", "set_point_control"), (AT5_API, "At5AirConditioner", "set_point")):
@@ -344,17 +339,25 @@ def r5(ctx):
         n, c = cons[0]
         kw = {k.arg: k.value for k in c.keywords}
         ctx.check("ac_number" in kw and norm_text(kw["ac_number"]) == "self.ac_id", R, f"{cls}.{meth}:own-ac", m, c, "ac_number=self.ac_id", norm_text(kw.get("ac_number")) if "ac_number" in kw else "missing")
-        for field, mine, other in (("on_timer", ON, OFF), ("off_timer", OFF, ON)):
-            e = f.expand(kw[field], n) if field in kw else None
-            if e is None:
-                ctx.violation(R, f"{cls}.{meth}:{field}", m, c, f"{field} set", "missing")
-                continue
-            v_mine = _eval_ifexp(ctx, m, e, p_type, mine)
-            v_other = _eval_ifexp(ctx, m, e, p_type, other)
-            ok1 = v_mine is not None and norm_text(v_mine) == p_state
-            ok2 = v_other is not None and norm_text(v_other) == f"self._ac_timer_status.{field}"
-            ctx.check(ok1, R, f"{cls}.{meth}:{field}:when-{mine.name}", m, c, f"{field} = the new state when timer_type is {mine.name}", norm_text(v_mine) if v_mine is not None else norm_text(e))
-            ctx.check(ok2, R, f"{cls}.{meth}:{field}:when-{other.name}", m, c, f"{field} = self._ac_timer_status.{field} (exactly as last reported) when timer_type is {other.name}", norm_text(v_other) if v_other is not None else norm_text(e))
+        from ..minieval import Mini, Unsupported
+
+        def stop(st, c=c):
+            if any(x is c for x in ast.walk(st)):
+                return ast.Tuple(elts=[kw.get("on_timer", ast.Constant(value="<missing>")), kw.get("off_timer", ast.Constant(value="<missing>"))], ctx=ast.Load())
+            return None
+
+        res = {}
+        for tv in (ON, OFF):
+            mini = Mini(ctx.repo, m, {"self._ac_timer_status.on_timer": "<reported on_timer>", "self._ac_timer_status.off_timer": "<reported off_timer>"}, f.cls)
+            try:
+                kind, got = mini.value_at(f.node, {p_type: tv, p_state: "<new state>"}, stop)
+            except Unsupported as ex:
+                raise AnalysisError(f"{m.relpath}: {cls}.{meth}: timer selection left the evaluable fragment: {ex}")
+            res[tv.name] = got if kind == "value" else (f"<{kind}>", f"<{kind}>")
+        for i, (field, mine, other) in enumerate((("on_timer", ON, OFF), ("off_timer", OFF, ON))):
+            v_mine, v_other = res[mine.name][i], res[other.name][i]
+            ctx.check(v_mine == "<new state>", R, f"{cls}.{meth}:{field}:when-{mine.name}", m, c, f"{field} = the new state when timer_type is {mine.name}", str(v_mine))
+            ctx.check(v_other == f"<reported {field}>", R, f"{cls}.{meth}:{field}:when-{other.name}", m, c, f"{field} = self._ac_timer_status.{field} (exactly as last reported) when timer_type is {other.name}", str(v_other))
         # the record is the only one in the message
         msgs = f.calls("AcTimerControlMessage")
         ok = len(msgs) == 1 and any(isinstance(x, ast.List) and len(x.elts) == 1 and x.elts[0] is c for x in ast.walk(msgs[0][1]))
